@@ -22,6 +22,7 @@ func runC02(c *Ctx) {
 	borrow(c, "O10", "C13", "O9", "PodInfo.GPUGroups restored before", "an undone eviction re-adds the sharer to its node under the group ids it carries at that moment: with the ids of the simulated placement its share leaves the real device, which then looks free")
 	borrow(c, "O11", "C12", "O1", "GPUGroups taken from the BindRequest", "a nominated multi-device sharer is charged to the groups its BindRequest selected; the labels the binder has written so far are a subset")
 	borrow(c, "O12", "C14", "O10", "is decided by the state of the GPU group", "a shared device is charged as one whole GPU exactly while it has sharers: the ±1 on Idle/Releasing must be tied to the first / last sharer of the group")
+	borrow(c, "O19", "C01", "O11", "no BindRequest reported only when there is none or it failed for good", "a sharer whose (already succeeded) bind request is hidden while its pod update has not arrived is a Pending pod on no node: its portion disappears from its GPU group and another request is bound into the room it occupies")
 	borrow(c, "O13", "C13", "O5", "Commit does not call Discard", "pods whose bind request was already emitted must stay charged to their GPU groups: undoing them in the session makes the devices look free while the pods get bound")
 	borrow(c, "O9", "C17", "O7", "GetGpuGroups", "the per-group memory counters of a snapshot are rebuilt from the groups GetGpuGroups reports for each bound pod: a sharer whose groups are not found leaves its devices looking free")
 	borrow(c, "O7", "C01", "O2", "IsTaskAllocatable accepting path", "the bind-versus-pipeline decision for a new GPU group relies on IsTaskAllocatable: a gpu-memory request must not pass it without an idle GPU")
